@@ -373,16 +373,19 @@ class Run:
             self.emit(idx, serial, item, base, data)
 
     def id_ctx(self, idx, serial):
+        # only the most recent earlier id is ever looked at (faults.resolve_id "prev")
         w = self.wire.get(idx, [])
         cur = w[-1] if w else {}
         rid = cur.get("request_id") or 0
-        prev = [x["request_id"] for x in w[:-1] if x.get("request_id") is not None]
-        return {
-            "cur": rid,
-            "prev": prev,
-            "cur_msg": cur.get("msg_id", 0) or 0,
-            "prev_msg": [x.get("msg_id") for x in w[:-1] if x.get("msg_id") is not None],
-        }
+        prev, prev_msg = [], []
+        for x in reversed(w[:-1] if len(w) < 64 else w[-64:-1]):
+            if not prev and x.get("request_id") is not None:
+                prev = [x["request_id"]]
+            if not prev_msg and x.get("msg_id") is not None:
+                prev_msg = [x["msg_id"]]
+            if prev and prev_msg:
+                break
+        return {"cur": rid, "prev": prev, "cur_msg": cur.get("msg_id", 0) or 0, "prev_msg": prev_msg}
 
     def emit(self, idx, serial, item, base, req_data):
         k = item.get("k", "genuine")
